@@ -2644,6 +2644,37 @@ class BaseInterpreter(Generic[TContext, TEvent]):
         selected.sort(key=lambda t: -t.source.depth)
         return selected
 
+    @staticmethod
+    def _is_stale_notification(event: Any, state: StateNode) -> bool:
+        """Reports whether a queued event is a timer/service notification of `state`.
+
+        Used when `state` is exited: an `after` expiry or an invoke result that
+        is already queued belongs to the activation being left. If the state
+        is re-entered before the queue drains, the old notification would
+        otherwise be taken for the new activation's.
+
+        Args:
+            event (Any): A queued event.
+            state (StateNode): The state being exited.
+
+        Returns:
+            bool: `True` if the event must be dropped together with the state.
+        """
+        if isinstance(event, AfterEvent):
+            return any(
+                t.event == event.type
+                for transitions in state.after.values()
+                for t in transitions
+            )
+        if isinstance(event, DoneEvent):
+            return any(
+                event.src == inv.id
+                and event.type
+                in (f"done.invoke.{inv.id}", f"error.platform.{inv.id}")
+                for inv in state.invoke
+            )
+        return False
+
     def _compute_states_to_exit(
         self, domain: Optional[StateNode], target_state: StateNode
     ) -> Set[StateNode]:
